@@ -63,6 +63,8 @@ macro_rules! impl_partial_ord {
                 ) {
                     (Some(a), Some(b)) => a.partial_cmp(&b),
                     (None, Some(_)) => {
+                        #[cfg(feature = "verif-hooks")]
+                        fpdec_core::verif::hit(fpdec_core::verif::CMP_LHS_OVF);
                         if self.coeff > 0 {
                             Some(Ordering::Greater)
                         } else {
@@ -70,6 +72,8 @@ macro_rules! impl_partial_ord {
                         }
                     }
                     (Some(_), None) => {
+                        #[cfg(feature = "verif-hooks")]
+                        fpdec_core::verif::hit(fpdec_core::verif::CMP_RHS_OVF);
                         if other.coeff < 0 {
                             Some(Ordering::Greater)
                         } else {
